@@ -121,3 +121,53 @@ def c08(pid, tier, seed):
 
 
 EXTRA = {"C08": c08}
+
+
+def c17(pid, tier, seed):
+    from . import rngcheck
+    obs = []
+    res = rngcheck.analyse()
+    for r in res:
+        o = obligation("C17/rng-frame:%s" % r["function"], not r["problems"], reason="; ".join(r["problems"]) or None,
+                       where=r["where"], props=("C17",), clause="rng-frame")
+        o["backend"] = "rngcheck (syntactic effect frame on the global generators, modular)"
+        obs.append(o)
+    cmd = [NATIVE_PY, os.path.join(ROOT, "pyvc", "native_c17.py"), extract.REPO, str(seed)]
+    p = subprocess.run(cmd, stdout=subprocess.PIPE, stderr=subprocess.PIPE, cwd="/", timeout=1200)
+    if p.returncode != 0:
+        raise RuntimeError("native_c17 failed: %s" % p.stderr.decode()[-1500:])
+    nat = json.loads(p.stdout.decode())
+    by = {}
+    for v in nat["violations"]:
+        by.setdefault(v["function"], []).append(v)
+    violations = []
+    k = 0
+    refuted = [o for o in obs if o["status"] == "refuted"]
+    for o in refuted:
+        fn = o["name"].split(":", 1)[1]
+        k += 1
+        hit = by.get(fn)
+        path = write_text_replay(pid, k, "C17 rng-frame obligation refuted: %s\n%s" % (o["name"], o["reason"]),
+                                 dict(property=pid, obligation=o["name"], reason=o["reason"], native=hit), cmd + [fn])
+        violations.append(dict(obligation=o, path=path, reproduced=bool(hit), case={"function": fn, "native": hit}))
+    for fn, hits in by.items():
+        if any(o["name"].endswith(":" + fn) for o in refuted):
+            continue
+        k += 1
+        o = obligation("C17/bounded:%s" % fn, False, reason="two calls with the same seed differ: %s" % hits[0], props=("C17",), clause="bounded")
+        path = write_text_replay(pid, k, "C17 bounded stand-in: %s is not determined by its seed" % fn, dict(property=pid, native=hits), cmd + [fn])
+        violations.append(dict(obligation=o, path=path, reproduced=True, case={"function": fn, "native": hits}))
+    return dict(
+        obligations=obs, violations=violations,
+        bounded=[dict(function="%d seeded functions" % nat["functions"], bound="fixed small argument grid x seeds {s, s+1, 7}, globals disturbed and the function re-run with another seed in between",
+                      cases=nat["calls"], violations=len(nat["violations"]), kind="bounded stand-in: native double run", errors=nat["errors"])],
+        trusted=["a generator seeded with s produces a sequence that is a function of s (random, numpy.random, default_rng)",
+                 "networkx functions given seed=s, and scipy eigsh given v0, are deterministic in their arguments",
+                 "iteration order of sets/dicts is a function of their construction history within one process",
+                 "rngcheck call classification (pyvc/rngcheck.py): random.*, np.random.*, default_rng, EXT_TAKES_SEED, EXT_HIDDEN tables"],
+        assumptions=["determinism is claimed only for seed is not None (the functions seed under `if seed is not None`)",
+                     "effect signatures of external calls are assumed (EXT_HIDDEN: eigsh/eigs/svds draw a start vector unless v0 is given)"],
+    )
+
+
+EXTRA["C17"] = c17
